@@ -437,11 +437,11 @@ def make_runs(tier, seed):
     quick = tier != "thorough"
     names2 = ["n1", "n2"]
     runs = [runner.ExportRun("MC_NixMeta", "MC_C10_quick.cfg" if quick else "MC_C10.cfg", seed, "harness.c10",
-                             opts={"names": names2, "attrs": []}, stride=3 if quick else 4),
+                             opts={"names": names2, "attrs": []}, stride=6 if quick else 4),
             runner.ExportRun("MC_NixMeta", "MC_C10_attrs.cfg", seed + 1, "harness.c10",
                              opts={"names": ["n1"], "attrs": ["unit", "definition", "uncertainty", "reference", "dependency",
                                                               "dependency_value", "value_origin", "odml"]},
-                             stride=2 if quick else 1)]
+                             stride=3 if quick else 1)]
     return runs
 
 
